@@ -358,6 +358,7 @@ def run(ctx: Ctx):
     _both_parameterisations_normalised(ctx)
     _either_representation_alias_is_metadata_only(ctx)
     _callback_results_not_mutated(ctx)
+    _unbiased_defaults_and_exact_tables(ctx)
     plumbing(ctx, "S6")
     return dict(
         explanation=(
@@ -713,6 +714,40 @@ def _either_representation_alias_is_metadata_only(ctx: Ctx):
            (f"`{u(bad[0][3] if bad[0][3] is not None else bad[0][2])[:70]}` in {bad[0][0]}.{bad[0][1].name} uses `{u(bad[0][2])}` as a value: it is the probs for a "
             f"distribution built from probs and the (log-space) logits for one built from logits, so the result is right for one construction "
             f"and wrong for the other") if bad else "", rel, bad[0][2].lineno if bad else 1, sample=dict(aliases=n_alias, reads=n_reads))
+
+
+def _unbiased_defaults_and_exact_tables(ctx: Ctx):
+    """S15: (a) the importance-sampling estimator is the unbiased one unless the caller asks otherwise: `self_normalize` defaults to
+    False (the self-normalised estimator is biased for every finite number of samples - at one sample its weight is identically 1 and
+    the gradient with respect to the density is exactly 0). (b) binomial_coefficient takes its values from a table of factorials
+    only while the largest factorial fits in 64 bits: 20! < 2**63 <= 21!. The threshold of the switch to the overflow-safe recursion is
+    read from the comparison and checked against that bound."""
+    import math
+    col, pkg = ctx.col, ctx.pkg
+    f = pkg.func("_mc::ImportanceSamplingEstimator.__init__")
+    p_ = f.param("self_normalize")
+    d_ = p_.default if p_ is not None else None
+    col.ob("G13", "S15", f"{f.module.relname}::{f.qualname}::unbiased-by-default", p_ is not None and isinstance(d_, ast.Constant) and d_.value is False,
+           f"`self_normalize` defaults to {u(d_) if d_ is not None else None}: an estimator built the documented way silently is the self-normalised, biased one - "
+           f"its value and gradient do not average to the expectation for small numbers of samples", f.module.relname, f.line)
+    b = pkg.func("_combinatorics::binomial_coefficient")
+    rd = ReachingDefs(b.node)
+    sw = []
+    for n in own_nodes(b.node):
+        if isinstance(n, ast.If) and isinstance(n.test, ast.Compare) and len(n.test.ops) == 1 and isinstance(n.test.comparators[0], ast.Constant) \
+                and isinstance(n.test.comparators[0].value, int) and n.test.comparators[0].value >= 10 and isinstance(n.test.left, ast.Name):
+            c_ = n.test.comparators[0].value
+            op = type(n.test.ops[0])
+            # the largest length that still takes the table path
+            top = {ast.Gt: c_, ast.GtE: c_ - 1, ast.LtE: c_, ast.Lt: c_ - 1}.get(op)
+            if top is not None:
+                sw.append((n, top))
+    col.floor("factorial_table_switches", len(sw), 1)
+    badsw = [(n, top) for n, top in sw if math.factorial(top) >= 2 ** 63]
+    col.ob("G21", "S15", f"{b.module.relname}::binomial_coefficient::factorial-table-fits-64-bits", not badsw,
+           (f"`{u(badsw[0][0].test)}` lets lengths up to {badsw[0][1]} use the table of factorials, but {badsw[0][1]}! = {math.factorial(badsw[0][1])} does not fit "
+            f"a 64-bit integer (20! is the last that does): every coefficient of that length is garbage, the support size times the per-vector "
+            f"probability is not one") if badsw else "", b.module.relname, badsw[0][0].lineno if badsw else b.line)
 
 
 def _mutants():
